@@ -760,6 +760,7 @@ fn check_composition(
         | (SecondaryDefinition::UnaryPrefix, SecondaryDefinition::EndGrouping)
         | (SecondaryDefinition::UnaryPrefix, SecondaryDefinition::EndSideEffect)
         | (SecondaryDefinition::UnaryPrefix, SecondaryDefinition::BinaryLeftToRight)
+        | (SecondaryDefinition::UnaryPrefix, SecondaryDefinition::OptionalBinaryLeftToRight)
         | (SecondaryDefinition::UnarySuffix, SecondaryDefinition::Value)
         | (SecondaryDefinition::UnarySuffix, SecondaryDefinition::Identifier)
         | (SecondaryDefinition::UnarySuffix, SecondaryDefinition::StartGrouping)
@@ -789,7 +790,8 @@ fn check_operator_composition(previous: SecondaryDefinition, current: SecondaryD
         | (SecondaryDefinition::UnaryPrefix, SecondaryDefinition::Subexpression)
         | (SecondaryDefinition::UnaryPrefix, SecondaryDefinition::EndGrouping)
         | (SecondaryDefinition::UnaryPrefix, SecondaryDefinition::EndSideEffect)
-        | (SecondaryDefinition::UnaryPrefix, SecondaryDefinition::BinaryLeftToRight) => composition_error(previous, current, &token),
+        | (SecondaryDefinition::UnaryPrefix, SecondaryDefinition::BinaryLeftToRight)
+        | (SecondaryDefinition::UnaryPrefix, SecondaryDefinition::OptionalBinaryLeftToRight) => composition_error(previous, current, &token),
         _ => Ok(()),
     }
 }
